@@ -263,6 +263,10 @@ def _script_tick(k: int, fa: int):
         return ("res_b", [StepWorkerResult(result=STOP)])
     if k == 6:
         return TickCancelRun()
+    if k == 8:
+        return ("res_a", [AddWaiter(waiter_id="w9", event_type=EvC, timeout=1)])   # the step parks in a wait with a 1 s timeout
+    if k == 9:
+        return TickWaiterTimeout(step_name="a", waiter_id="w9")                      # ... and its timer fires (a later tick = a later instant)
     return TickTimeout(timeout=1.0)
 
 
@@ -287,20 +291,20 @@ THOROUGH_FOLD = B(False, True)
 
 
 @obligation(quick=240, thorough=900,
-            partitions_quick=[f"k0 == {a} and k1 == {b}" for a in (0, 1) for b in range(8)],
-            partitions_thorough=[f"k0 == {a} and k1 == {b} and pol == {p}" for a in (0, 1) for b in range(8) for p in (0, 2)],
+            partitions_quick=[f"k0 == {a} and k1 == {b}" for a in (0, 1) for b in range(10)],
+            partitions_thorough=[f"k0 == {a} and k1 == {b} and pol == {p}" for a in (0, 1) for b in range(10) for p in (0, 2)],
             what="the real rebuild_state_from_ticks and replay_ticks_stream on a symbolic tick script equal the live fold (own clock, run id) "
                  "up to timestamps after EVERY prefix; the exit command replay reports is the live reducer's last exit command",
-            bounds={"script": "N_SCRIPT ticks from an 8-tick vocabulary (adds, results, failure, stop, cancel, timeout)", "num_workers(a)": "1..2",
+            bounds={"script": "N_SCRIPT ticks from a 10-tick vocabulary (adds, results, failure, stop, cancel, timeout, park in a wait with a timeout, waiter timer fires)", "num_workers(a)": "1..2",
                     "policy": "none / stop_after_attempt(2)", "clocks": "live clock = tick index (1,2,..), replay instant symbolic 0..TS"})
 def ob_rebuild_is_fold(nw: int, pol: int, k0: int, k1: int, k2: int, k3: int, rnow: int) -> bool:
     """
     pre: 1 <= nw <= 2 and pol in (0, 2)
-    pre: 0 <= k0 <= 1 and 0 <= k1 <= 7 and 0 <= k2 <= 7 and 0 <= k3 <= 7 and (N_SCRIPT >= 4 or k3 == 0)
+    pre: 0 <= k0 <= 1 and 0 <= k1 <= 9 and 0 <= k2 <= 9 and 0 <= k3 <= 9 and (N_SCRIPT >= 4 or k3 == 0)
     pre: 0 <= rnow <= TS and (THOROUGH_FOLD or rnow == 0 or rnow == TS)
     post: _
     """
-    nw, pol, k0, k1, k2, k3 = conc(nw, 1, 2), conc(pol, 0, 2), conc(k0, 0, 1), conc(k1, 0, 7), conc(k2, 0, 7), conc(k3, 0, 7)
+    nw, pol, k0, k1, k2, k3 = conc(nw, 1, 2), conc(pol, 0, 2), conc(k0, 0, 1), conc(k1, 0, 9), conc(k2, 0, 9), conc(k3, 0, 9)
     policy = _policy(pol, 2, 0)
     init = world_ab(nw, False, False, False, 0, policy=policy, is_running=True)
     ks = [k0, k1, k2, k3][:N_SCRIPT]
